@@ -4,15 +4,18 @@
 (* action, with which arguments).  What the model chose among the accepting    *)
 (* links is not part of the schedule - the real switch picks at random.  One   *)
 (* NDJSON file per behaviour; its first line is the initial link registration. *)
-(* To keep forwards frequent one environment step is followed by two forwards. *)
+(* To keep forwards frequent one environment step is followed by two forwards, *)
+(* every other time by a forward and a block epoch (any height of the palette: *)
+(* up, the same again, or down = reorg).                                       *)
 EXTENDS SwitchPolicy, Json, TLC, Sequences
 CONSTANT MaxLen
 VARIABLE hist
 
 NoReq == [t |-> "-", x |-> "-"]
-Ev(a, c, S, q, r, h) ==
+EvH(a, c, S, q, r, h, hn) ==
   [a |-> a, c |-> c, set |-> [x \in Chans |-> IF x \in S THEN 1 ELSE 0], pol |-> q,
-   rt |-> r.t, rx |-> r.x, h |-> h, init |-> reg]
+   rt |-> r.t, rx |-> r.x, h |-> h, hn |-> hn, init |-> reg]
+Ev(a, c, S, q, r, h) == EvH(a, c, S, q, r, h, 0)
 Rec(e) == hist' = Append(hist, e)
 
 \* behaviours start with at least two of the three ordinary channels up (the others may be added later)
@@ -26,15 +29,18 @@ GAdd == \E c \in Chans : \/ Add(c) /\ Rec(Ev("Add", c, {}, P0, NoReq, NoLast.h))
 GRemove == \E c \in Chans : Remove(c) /\ Rec(Ev("Remove", c, {}, P0, NoReq, NoLast.h))
 \* links come and stop early in a behaviour and go late, so that forwards meet parallel links most of the time
 GLink == IF Len(hist) < 10 /\ ENABLED GAdd THEN GAdd ELSE GAdd \/ GRemove
+GEpoch == \E m \in Heights : Epoch(m) /\ Rec(EvH("Epoch", "-", {}, P0, NoReq, NoLast.h, m))
 GFwdOf(h, r) == Forward(h, r) /\ Rec(Ev("Fwd", "-", {}, P0, r, h))
 \* a forward that is decided by the links (not unknown_next_peer), if there is one
-Decisive(h, r) == AllowedSet(enf, r, h, bw) # {FailWith(UNP)}
+Decisive(h, r) == AllowedSet(enf, r, h, bw, height) # {FailWith(UNP)}
 GFwd == IF Len(hist) % 3 = 2 /\ \E h \in Htlcs, r \in Reqs : Decisive(h, r)
         THEN \E h \in Htlcs, r \in Reqs : Decisive(h, r) /\ GFwdOf(h, r)
         ELSE \E h \in Htlcs, r \in Reqs : GFwdOf(h, r)
-\* step 1, 4, 7, ... is an environment step (policy updates and link changes alternate), the others forward
+\* step 1, 4, 7, ... is an environment step (policy updates and link changes alternate), step 2, 5, 8, ... a
+\* forward, step 3, 9, 15, ... a block epoch and step 6, 12, 18, ... a forward again
 GNext == /\ Len(hist) < MaxLen
-         /\ IF Len(hist) % 3 # 1 THEN GFwd
+         /\ IF Len(hist) % 3 = 0 /\ (Len(hist) \div 3) % 2 = 1 THEN GEpoch
+            ELSE IF Len(hist) % 3 # 1 THEN GFwd
             ELSE IF (Len(hist) \div 3) % 2 = 0 \/ ~ENABLED GLink THEN GUpd ELSE GLink
 GSpec == GInit /\ [][GNext]_<<vars, hist>>
 
